@@ -415,7 +415,7 @@ func c04closeVerdict(c *Ctx, r *Report, rule string) {
 			}
 			if !found {
 				for _, g := range exitGuardsCached(fn) {
-					if !g.Head.Dominates(ret.Block()) || g.Exit.Dominates(ret.Block()) || !regionOnlyErrorExits(g.Exit) {
+					if !g.Head.Dominates(ret.Block()) || g.Head == ret.Block() || g.Exit.Dominates(ret.Block()) || !regionOnlyErrorExits(g.Exit) {
 						continue
 					}
 					for _, cj := range g.Conj {
